@@ -65,7 +65,7 @@ S_INTERP = [K("tales.py::PythonExpr.translate"), K("k3::S-Interp-braces"), K("k3
 S_I18N = [K("k3::S-Translate-name"), K("k3::S-Translate-name-condition"), K("k3::S-Translate-id"), K("k3::S-Translate-empty"),
           K("k3::S-I18nDomain"), K("k3::S-I18nContext"), K("k3::S-I18nTarget"), K("k3::S-I18nTarget-name"), K("k3::S-I18nContext-name"), K("k3::S-I18nContext-target-domain"), K("k3::S-I18nAttributes"), K("k3::S-I18nAttributes-two"), K("k3::S-I18nAttributes-implicit-interp"),
           K("k3::S-Content-translate")]
-S_METAL = [K("k3::S-UseExternal"), K("k3::S-MacroBody-slots-nonascii"), K("k3::S-ExtendMacro"), K("k3::S-UseExternal-filler-define"), K("k3::S-UseExternal-filler-i18n"), K("k3::S-TemplateBody-slot"), K("k3::S-MacroUseInternal"), K("k3::S-MacroBody"), K("k3::S-TwoMacros"),
+S_METAL = [K("k3::S-UseExternal"), K("k3::S-MacroBody-slots-nonascii"), K("k3::S-ExtendMacro"), K("k3::S-UseExternal-filler-define"), K("k3::S-UseExternal-filler-i18n"), K("k3::S-UseExternal-two-fills"), K("k3::S-TemplateBody-slot"), K("k3::S-MacroUseInternal"), K("k3::S-MacroBody"), K("k3::S-TwoMacros"),
            K("k3::S-MacroBody-slot-define"),
            K("k3::S-MacroUseInternal-after-expr")]
 K2Q = [K("compiler.py::K2.__quote"), K("compiler.py::K2.__quote@char"), K("compiler.py::K2.__convert"),
@@ -158,7 +158,7 @@ PROPS = {
         "to skip empty content; domain/context/target are set for the subtree and restored; message "
         "objects are offered to translate exactly once by the conversion routine (K2).",
         S_I18N + [K("compiler.py::K2.__quote"), K("compiler.py::K2.__convert"), K("k3::S-OnError-in-translate"),
-                  K("k3::S-UseExternal-filler-i18n"),
+                  K("k3::S-UseExternal-filler-i18n"), K("k3::S-MacroBody"),
                   # the wrapper render() puts around the translation function when an encoding is set
                   K("zpt/template.py::PageTemplate.render.translate"),
                   U('pyvc.regexlang', 'whitespace_unit', 'prelude.__re_whitespace')] + [FRESH],
